@@ -198,6 +198,18 @@ def make_method(cls="method", sites=None, consider_weather=False, name="M", **kw
     return klass(name, props, consider_weather, sites, None)
 
 
+def make_method_from(cls, props, sites=None, consider_weather=False, name="M"):
+    """construct from a GIVEN properties dict (the caller keeps the object: SimulationManager hands
+    the same method-parameter dict to every Program of every simulation in debug mode)"""
+    sites = sites if sites is not None else [StubSite("s0", 60)]
+    klass = CLASSES[cls]
+    warnings.simplefilter("ignore", RuntimeWarning)
+    if cls in ("site", "equipment"):
+        return klass(name, props, consider_weather, sites=sites,
+                     follow_up_schedule=StubFollowUpSchedule(), input_dir=None)
+    return klass(name, props, consider_weather, sites, None)
+
+
 class TravelScript:
     """replaces the sampled travel time of a method by a scripted per-visit sequence (the real
     `_get_travel_time` draws with random.choice from the configured list; the draw is an input of
